@@ -12,6 +12,9 @@ def plan(tier):
         {'kind': 'cont', 'count': 12 if q else 300, 'cfgs': lvl, 'shards': 1 if q else 8},
         {'kind': 'lang', 'count': 12 if q else 300, 'cfgs': lvl, 'shards': 1 if q else 8},
         {'kind': 'scope', 'count': 6 if q else 100, 'cfgs': lvl, 'args': ['l=3', 'mode=random'], 'shards': 1 if q else 4},
+        # live data larger than one 8192-cell heap chunk: growth, collections over several chunks, old objects in
+        # the grown part referring to young ones (bulk builtins only: few steps of the reference machine)
+        {'kind': 'biglive', 'count': 3 if q else 60, 'cfgs': 'gcbig', 'shards': 1 if q else 6},
     ]
 
 
@@ -34,6 +37,7 @@ def c03(tier):
             {'kind': 'lang', 'count': 4 if q else 80, 'period': 2, 'every': 30 if q else 25, 'maxev': 40},
             {'kind': 'scope', 'count': 2 if q else 40, 'period': 3, 'every': 40 if q else 25, 'maxev': 40},
             {'kind': 'sym', 'count': 3 if q else 60, 'period': 7, 'every': 40 if q else 25, 'maxev': 40},
+            {'kind': 'biglive', 'count': 1 if q else 12, 'period': 9, 'every': 4, 'maxev': 6},
         ]
         gcov.update(gcs.run(verdict, wd, tier, plans, vlib.seed()))
         # register traces under forced collections against the collector-free instruction-level model
